@@ -299,6 +299,12 @@ func TestMC(t *testing.T) {
 		scenarios = append(scenarios, storeDirect(sem))
 	}
 	scenarios = append(scenarios, twoWorkers(1, 1), twoWorkers(2, 1), twoWorkers(2, 2))
+	// One store shared by two goroutines.
+	scenarios = append(scenarios,
+		storeShared(1, 2, [2][]string{{"A", "B"}, {"C"}}),
+		storeShared(1, 1, [2][]string{{"A", "B"}, {"C", "A"}}),
+		storeShared(2, 2, [2][]string{{"A", "B", "C"}, {"D", "A"}}),
+	)
 	scenarios = append(scenarios, mainWiring())
 	mc.Main(t, scenarios, nil)
 }
